@@ -50,8 +50,8 @@ theorem queue_add_events_tie (s : Queue.State) (es : List Event) :
 theorem queue_get_event_tie (s : Queue.State) :
     queue_get_event s =
       match Queue.getEvent s with
-      | .ok (e, s') => .ok (s', e)
-      | .error x => .error (qErrToPy x) := by
+      | .ok (e, s') => (s', .ok e)
+      | .error x => (s, .error (qErrToPy x)) := by
   unfold queue_get_event Queue.getEvent
   cases h : Heap.heappop Event.keyLt s.heap with
   | error x => rfl
@@ -71,7 +71,7 @@ theorem getEvent_size {s s' : Queue.State} {e : Event} (h : Queue.getEvent s = .
 theorem queue_get_current_events_loop_tie (t : Int) : ∀ (fuel : Nat) (s : Queue.State) (acc : List Event),
     s.timestep = t → s.heap.size < fuel →
     queue_get_current_events_loop t fuel s acc =
-      .ok ((Queue.getCurrentLoop t s.heap.size s acc).1, (Queue.getCurrentLoop t s.heap.size s acc).2) := by
+      ((Queue.getCurrentLoop t s.heap.size s acc).1, .ok (Queue.getCurrentLoop t s.heap.size s acc).2) := by
   intro fuel
   induction fuel with
   | zero => intro s acc _ h; omega
@@ -119,7 +119,7 @@ theorem queue_get_current_events_loop_tie (t : Int) : ∀ (fuel : Nat) (s : Queu
     `Queue.getCurrent` returns — the new queue (with `_timestep = t`) and the events in the order popped;
     it never runs out of fuel and never raises -/
 theorem queue_get_current_events_tie (s : Queue.State) (t : Int) (fuel : Nat) (h : s.heap.size < fuel) :
-    queue_get_current_events fuel s t = .ok ((Queue.getCurrent s t).1, (Queue.getCurrent s t).2) := by
+    queue_get_current_events fuel s t = ((Queue.getCurrent s t).1, .ok (Queue.getCurrent s t).2) := by
   unfold queue_get_current_events Queue.getCurrent
   simp only
   rw [queue_get_current_events_loop_tie t fuel { s with timestep := t } [] rfl h]
